@@ -469,6 +469,12 @@ fn cmd_check(args: &[String]) -> i32 {
 			"executions_by_scheduler": by_sched,
 			"simulated_time": {"note": "no clock in parity-db; shuttle scheduling steps are the time unit", "client_and_worker_events": sum("steps")},
 			"probes": probes,
+			"faults_fired": {
+				"stalled_thread (one thread descheduled for 30-4000 switch points at one of its lock acquisitions)": probes.get("stall_fired").cloned().unwrap_or(0),
+				"worker_failure_injected (store_err at a scheduler-chosen moment)": probes.get("worker_failure_injected").cloned().unwrap_or(0),
+				"commit_throttled_queue_full": probes.get("commit_throttled_queue_full").cloned().unwrap_or(0),
+				"note": "no disk faults in this engine; the schedule itself (which thread runs at every lock / condvar operation) is the fault space",
+			},
 			"cross_property_observations": cross,
 			"known_findings_matched": known_lines,
 			"violations_reported": reported,
